@@ -28,6 +28,10 @@ use util::*;
 static GLOBAL: guard::CountingAlloc = guard::CountingAlloc;
 
 const HANG_SECS: u64 = 30;
+/// once a few runs have hung, further ones are given up on sooner (keeps a hanging decoder from
+/// stretching the whole run to hours)
+const HANG_SECS_AFTER: u64 = 6;
+static HANGS: std::sync::atomic::AtomicUsize = std::sync::atomic::AtomicUsize::new(0);
 
 struct Args {
 	inp: String,
@@ -626,7 +630,9 @@ fn manage(args: Arc<Args>, w: usize, nitems: usize, results: Arc<Mutex<BTreeMap<
 				Ok(Msg::Eof) => break,
 				Err(std::sync::mpsc::RecvTimeoutError::Timeout) => {
 					if let Some((_, _, t)) = current {
-						if t.elapsed().as_secs() >= HANG_SECS {
+						let limit = if HANGS.load(std::sync::atomic::Ordering::Relaxed) >= 3 { HANG_SECS_AFTER } else { HANG_SECS };
+						if t.elapsed().as_secs() >= limit {
+							HANGS.fetch_add(1, std::sync::atomic::Ordering::Relaxed);
 							hung = true;
 							let _ = child.kill();
 						}
